@@ -177,3 +177,101 @@ def sample_view(case, ctx):
         v["runs"][name] = {"outcome": r.outcome, "exit": r.exit, "steps": r.steps, "tasks": r.n_tasks,
                            "files": {p: len(d) for p, d in sorted(r.files.items())}}
     return v
+
+
+# --------------------------------------------------------------------------- destinations
+
+STDOUT = "<stdout>"
+
+
+def _optval(groups, flag):
+    for g in groups:
+        if g[0] == flag:
+            return g[1] if len(g) > 1 else True
+    return None
+
+
+def destinations(case):
+    """
+    Where records can go, derived from the command line only:
+    list of dict(role, paths, interleaved, key) with role in
+    sink | too_short | too_long | untrimmed ; key = adapter name (tuple for combinatorial) or None.
+    """
+    outs = case["outs"]
+    m = case["meta"]
+    paired = case["paired"]
+    o, p = _optval(outs, "-o"), _optval(outs, "-p")
+    dests = []
+
+    def pairdest(role, p1, p2, key=None):
+        if paired:
+            if p2 is None:
+                return {"role": role, "paths": [p1], "interleaved": True, "key": key}
+            return {"role": role, "paths": [p1, p2], "interleaved": False, "key": key}
+        return {"role": role, "paths": [p1], "interleaved": False, "key": key}
+
+    uo, upo = _optval(outs, "--untrimmed-output"), _optval(outs, "--untrimmed-paired-output")
+    discard_untrimmed = _optval(outs, "--discard-untrimmed") is not None
+    if m["demux"] == "normal":
+        for nm in m["names1"]:
+            dests.append(pairdest("sink", o.replace("{name}", nm), p.replace("{name}", nm) if p else None, key=nm))
+        if not discard_untrimmed:
+            u1 = uo if uo else o.replace("{name}", "unknown")
+            u2 = (upo if upo else p.replace("{name}", "unknown")) if p else None
+            dests.append(pairdest("sink", u1, u2, key=None))
+    elif m["demux"] == "combinatorial":
+        combos = [(a, b) for a in m["names1"] for b in m["names2"]]
+        if not discard_untrimmed:
+            combos += [(None, None)] + [(None, b) for b in m["names2"]] + [(a, None) for a in m["names1"]]
+        for a, b in combos:
+            fa, fb = a or "unknown", b or "unknown"
+            dests.append(pairdest("sink", o.replace("{name1}", fa).replace("{name2}", fb), p.replace("{name1}", fa).replace("{name2}", fb), key=(a, b)))
+    else:
+        if o is None:
+            dests.append({"role": "sink", "paths": [STDOUT], "interleaved": paired, "key": None})
+        else:
+            dests.append(pairdest("sink", o, p))
+        if uo:
+            dests.append(pairdest("untrimmed", uo, upo))
+    ts, tsp = _optval(outs, "--too-short-output"), _optval(outs, "--too-short-paired-output")
+    if ts:
+        dests.append(pairdest("too_short", ts, tsp))
+    tl, tlp = _optval(outs, "--too-long-output"), _optval(outs, "--too-long-paired-output")
+    if tl:
+        dests.append(pairdest("too_long", tl, tlp))
+    return dests
+
+
+def file_bytes(res, path):
+    if path == STDOUT:
+        return res.stdout
+    return res.files.get(path)
+
+
+def read_dest(res, dest):
+    """
+    Parse one destination strictly. Returns (format, r1 records, r2 records or None).
+    Raises fmt.FormatError (container or record syntax) / KeyError (file missing).
+    """
+    recs = []
+    fmts = []
+    for p in dest["paths"]:
+        data = file_bytes(res, p)
+        if data is None:
+            raise KeyError(p)
+        f, r = fmt.parse_records(p if p != STDOUT else "stdout", data)
+        fmts.append(f)
+        recs.append(r)
+    if dest["interleaved"]:
+        r = recs[0]
+        if len(r) % 2:
+            raise fmt.FormatError(f"{dest['paths'][0]}: interleaved file with odd number of records")
+        return fmts[0], r[0::2], r[1::2]
+    if len(recs) == 2:
+        return fmts[0], recs[0], recs[1]
+    return fmts[0], recs[0], None
+
+
+def rid(name):
+    m = gen.ID_RE.search(name)
+    return m.group(0) if m else None
